@@ -37,6 +37,21 @@ static std::vector<Json>& c14_table(){
     ops.push(o);
     tab.push_back(ops);
   }
+  // assignment-time size policy: operands agree (d1), the target has another dimension (d2) and cannot be resized - it views user storage, or the
+  // statement is += / -= - for every value category of the operands (an rvalue operand offers its storage to the target)
+  static const char* tex[]={"add","eprod","evol","icomm","neg","smul"};
+  for(int d1=2;d1<=6;d1++) for(int d2=2;d2<=6;d2++) if(d1!=d2) for(int te=0;te<6;te++) for(int how=0;how<3;how++) for(int text=0;text<2;text++) for(int cat=0;cat<4;cat++){
+    if(how==0 && !text) continue;                       // plain assignment may resize a target that owns its storage
+    if(te>=4 && cat>1) continue;                        // unary forms have one operand
+    Json ops=Json::array();
+    op_make(ops,0,d1,false,0); op_fill(ops,0,d1*10+d2,6);
+    op_make(ops,1,d1,false,1); op_fill(ops,1,d2*10+d1,1);
+    op_make(ops,2,d2,text==1,2); op_fill(ops,2,7,1);
+    Json o=Json::object();
+    o["op"]="stmt"; o["how"]=how==0?"=":(how==1?"+=":"-="); o["expr"]=tex[te]; o["t"]=2; o["a"]=0; o["b"]=1; o["ca"]=cat&1; o["cb"]=(cat>>1)&1; o["x"]=0.5; o["flags"]=0; o["fn"]=0; o["nest"]=0;
+    ops.push(o);
+    tab.push_back(ops);
+  }
   // constructor / factory window; every entry is surrounded by valid vectors whose integrity is checked
   std::vector<Json> faulty;
   static const int badd[]={1,7,8};
